@@ -279,6 +279,7 @@ class Interp:
         self.opaque = dict(opaque or {})
         self.lib = lib or libmodel
         self.max_depth = max_depth
+        self.max_recursion = 2
         self.stack: List[Function] = []
         self.raises: List[RaiseRecord] = []
         self.stores: List[StoreRecord] = []
@@ -292,6 +293,7 @@ class Interp:
         self.try_depth = 0
         self.hooks: Dict[str, Callable] = {}
         self.unmodelled: set = set()
+        self.shape_hints: Dict[Any, Tuple] = {}  # term -> known shape (rule-level precondition)
         self.nonnull: set = set()  # terms known not to be None (rule-level precondition)
         self.assume_true: List[Callable] = []  # conditions taken as true (stated assumptions of a rule)
         self.dataset_wraps: List[Tuple[str, str]] = []
@@ -455,13 +457,17 @@ class Interp:
             if func.node.args.kwarg is not None:
                 extra.append(to_term(b[func.node.args.kwarg.arg]))
             return op(self.opaque[q], *[to_term(b[n]) for n in names], *extra)
-        if len(self.stack) >= self.max_depth or self.stack.count(func) >= 2:
+        if len(self.stack) >= self.max_depth or self.stack.count(func) >= self.max_recursion:
             return self.note_unknown(f"inlining bound at {q}", node, env)
         self.functions_visited[q] = self.functions_visited.get(q, 0) + 1
         def_env = Env(self, func, func.module, closure)
         b = self.bind(func, args, kwargs, def_env, node, env)
         fenv = Env(self, func, func.module, closure)
         fenv.vars.update(b)
+        is_gen = any(isinstance(n, (ast.Yield, ast.YieldFrom)) for n in ast.walk(func.node)
+                     if not isinstance(n, (ast.Lambda,)))
+        if is_gen:
+            fenv.yields = []
         base_pc = TRUE_T
         if env is not None:
             fenv.loopvars = list(env.loopvars)
@@ -472,6 +478,8 @@ class Interp:
             flow = self.exec_block(func.node.body, fenv)
         finally:
             self.stack.pop()
+        if is_gen:
+            return list(fenv.yields)  # a generator evaluates to the sequence of its yielded values
         rets = [(self.relative_cond(c, base_pc), v) for c, v in flow.returns]
         # each return is reached only if the earlier ones were not taken: simplify its condition accordingly
         simp = []
@@ -809,6 +817,36 @@ class Interp:
 
     def ev_Lambda(self, node, env):
         return LambdaVal(node, env)
+
+    def _yield_sink(self, env):
+        e = env
+        while e is not None:
+            if hasattr(e, "yields"):
+                return e.yields
+            e = e.parent if e.parent is not None and e.parent.func is env.func else None
+        return None
+
+    def ev_Yield(self, node, env):
+        sink = self._yield_sink(env)
+        v = self.eval(node.value, env) if node.value is not None else None
+        if sink is None:
+            return self.note_unknown("yield outside a generator frame", node, env)
+        if env.pathcond != TRUE_T:
+            sink.append(op("guarded", env.pathcond, to_term(v)))
+        else:
+            sink.append(v)
+        return None
+
+    def ev_YieldFrom(self, node, env):
+        sink = self._yield_sink(env)
+        v = self.eval(node.value, env)
+        if sink is None:
+            return self.note_unknown("yield from outside a generator frame", node, env)
+        if isinstance(v, (list, tuple)):
+            sink.extend(v)
+        else:
+            sink.append(op("yield_from", to_term(v)))
+        return None
 
     def ev_Starred(self, node, env):
         return op("star", to_term(self.eval(node.value, env)))
